@@ -101,7 +101,85 @@ func c06Placements(W, copies int) [][]c06Place {
 // differ when extra copies are present in a block: neither is ledger state.
 var c06Proj = canon.LedgerNZ.Without("pn_history_txbatch", "blockorder").Without("pn_transaction_batch_holding", "eblock_keymr")
 
+// c06HeldOnce: "a conversion placed in holding is considered for execution exactly once", checked absolutely (no
+// copies involved): a held conversion waits over k blocks without rates; when the next graded block executes it, the
+// source is debited once and the destination credited once, at that block's rates.
+func c06HeldOnce(c *core.Ctx, r *core.Result) {
+	idx := 0
+	for _, st := range []int{drive.StPegPrice, drive.StBank, drive.StV4, drive.StV202} {
+		era := drive.EraStage(st)
+		dsts := []string{"pEUR", "PEG"}
+		if st >= drive.StV20 {
+			dsts = []string{"pEUR"}
+		}
+		for _, dst := range dsts {
+			for k := 0; k <= 3; k++ {
+				idx++
+				if !c.Mine(idx) && c.Only == "" {
+					continue
+				}
+				key := fmt.Sprintf("held-once/%s/pUSD>%s/%d-blocks-without-rates", era.Name, dst, k)
+				if !c.Want(key) {
+					continue
+				}
+				r.Eval()
+				amount := uint64(5e8)
+				var hExec uint32
+				w, err := NewWorld(era, func(b *drive.Builder) {
+					FundStd(b)
+					b.Add(drive.BlockSpec{Rates: R1(), OPRPayTo: kit.AddrStr(KM), TX: []fake.Entry{b.Tx(KA, kit.Conversion(AddrA, "pUSD", amount, dst))}})
+					b.AddEmpty(k)
+					hExec = b.Next()
+					b.Add(drive.BlockSpec{Rates: R2(), OPRPayTo: kit.AddrStr(KM)})
+					b.Add(drive.BlockSpec{Rates: R1(), OPRPayTo: kit.AddrStr(KM)})
+					b.AddEmpty(1)
+					b.Add(drive.BlockSpec{Rates: R2(), OPRPayTo: kit.AddrStr(KM)})
+				})
+				if err != nil {
+					r.Count("inconclusive-chain-does-not-sync", 1)
+					continue
+				}
+				v, e := ReadLedger(drive.DBFileOf(w.DBPath))
+				w.Close()
+				if e != nil {
+					panic("harness: " + e.Error())
+				}
+				usd0, _ := seqFunds(era)
+				want, ok := RefConvert(int64(amount), v.Rates[hExec]["pUSD"], v.Rates[hExec][dst])
+				if !ok {
+					r.Count("inconclusive-unconvertible", 1)
+					continue
+				}
+				r.NonTrivial(key)
+				gotSrc := int64(usd0) - int64(v.Bal(AddrA, "pUSD"))
+				// A mined PEG during the funding prefix only; later blocks pay the miner KM
+				pegBase := uint64(0)
+				if dst == "PEG" {
+					if wb, err2 := NewWorld(era, FundStd); err2 == nil {
+						if vb, e2 := ReadLedger(drive.DBFileOf(wb.DBPath)); e2 == nil {
+							pegBase = vb.Bal(AddrA, "PEG")
+						}
+						wb.Close()
+					}
+				}
+				gotDst := int64(v.Bal(AddrA, dst)) - int64(pegBase)
+				if dst == "pEUR" {
+					_, eur0 := seqFunds(era)
+					gotDst = int64(v.Bal(AddrA, dst)) - int64(eur0)
+				}
+				if gotSrc != int64(amount) || gotDst != want {
+					r.Violate(core.Violation{Key: key, Signature: "C06:held-conversion-not-applied-exactly-once:" + era.Name + ":" + dst,
+						Desc: fmt.Sprintf("a conversion of %d pUSD into %s held over %d blocks without rates and executed at %d: source debited %d (once = %d), destination credited %d (once = %d)", amount, dst, k, hExec, gotSrc, amount, gotDst, want)})
+				}
+			}
+		}
+	}
+}
+
 func runC06(c *core.Ctx, r *core.Result) {
+	if c.Only == "" || strings.HasPrefix(c.Only, "held-once/") {
+		c06HeldOnce(c, r)
+	}
 	W := 4
 	copies := 2
 	if c.Thorough() {
